@@ -518,6 +518,18 @@ def b_eig(ctx):
                         ctx.count('sign-indicator-zero-under-rounding')
                         continue
                     ctx.fail('C17:rotation', f'{name} changes under rotation: {v0} vs {v1} for {t.tolist()}', {'tensor': t.tolist(), 'q': q.tolist()})
+    # a trace of -0.0 is a trace of zero (negated trace-free tensors, unit load cases times a negative factor): documented sign +1
+    # (added after seed C17-f took the sign with np.copysign)
+    for tz in ((0.0, 0.0, 0.0, 1.0, 2.0, 3.0), (0.0, 0.0, 0.0, 40.0, 0.0, 0.0), (0.0, 0.0, 0.0, 10.0, -20.0, 30.0)):
+        neg = tuple(-x for x in tz)
+        for name, base in (('signed_mises_trace', 'mises'), ('signed_tresca_trace', 'tresca')):
+            for form in ('scalar', 'column'):
+                args = neg if form == 'scalar' else tuple(np.array([x, x]) for x in neg)
+                v = np.asarray(getattr(eqs, name)(*args), dtype=float).ravel()[0]
+                w_ = np.asarray(getattr(eqs, base)(*args), dtype=float).ravel()[0]
+                ctx.case(True, key=('negative-zero', tz, name, form))
+                if not (v == w_ or abs(v - w_) <= 1e-12 * abs(w_)):
+                    ctx.fail('C17:sign-of-zero-indicator', f'{name}{neg} ({form}) = {v}: the trace is (minus) zero, the documented sign is +1, {base} = {w_}', {'tensor': list(neg)})
     # components given as python ints / an integer array: the same numbers as for floats
     for ti in ((100, 0, 0, 50, 0, 0), (-300, 50, -50, 40, -20, 10), (0, 0, 0, 0, 0, 7)):
         for name in ('mises', 'tresca', 'max_principal', 'min_principal', 'abs_max_principal', 'signed_mises_trace', 'signed_tresca_abs_max_principal'):
